@@ -295,3 +295,36 @@ PROPS["C04"] = dict(
         technique="property-based testing (rapid) with a byte-exact request recogniser at a loopback TLS adversary",
     ),
 )
+
+_C05CONF = "[network]\ntimeout_seconds = 1\ncache_size = 4\n"
+
+PROPS["C05"] = dict(
+    pkg="c05",
+    level="fault_enumeration",
+    rule=("corpus of six exchanges (actor; actor with trailing bytes; 40-item collection; 302->200; 301->302(relative)->200; webfinger "
+          "JRD -> actor). (Cuts) for every response of every entry and every byte offset k in [0, len+3] (quick: every 7th offset plus "
+          "all line boundaries and the last brace): send k bytes then close, and send k bytes then reset. (Stalls) at every hop: no "
+          "fault, TCP accepted without TLS, plaintext garbage, TLS then garbage, refused port, silence after 0 / 5 bytes / the status "
+          "line / mid-headers / the headers / mid-body / all but the last byte, trickle (one byte per timeout/3) from three positions. "
+          "(Prop) random (corpus, hop, kind, offset). Processes run with timeout_seconds = 1 set through a real config file. Oracle: "
+          "in the MUST-error region (2xx cut at or before the last brace, 3xx cut before the end of its Location line, any cut in a "
+          "status line, every stall/trickle/garbage/refusal) the result is a failure item; wall time <= (hops+1) x 3 x timeout + 1 s "
+          "(a run still going 10 timeouts later is a hang); the process survives. Cuts after the last needed byte are the MAY region "
+          "(HTTP/1.0 has no framing). Non-trivial: every case except the fault-free runs and cuts at offset 0 / >= len. Distinct = "
+          "distinct (corpus, hop, kind, offset)."),
+    units=[
+        enum("Cuts", "TestCuts", shards=(4, 16), config_toml=_C05CONF, timeout=dict(quick=600, thorough=3000)),
+        enum("Stalls", "TestStalls", shards=(8, 16), config_toml=_C05CONF, timeout=dict(quick=600, thorough=1200)),
+        rapid("Prop", "TestProp", 1200, 60000, shards=(4, 16), config_toml=_C05CONF, timeout=dict(quick=600, thorough=3000)),
+    ],
+    exhaustive_claim=["Cuts", "Stalls"],
+    manifest=dict(
+        text=("Fault enumeration: every cut point of every response of a corpus (byte by byte in the thorough tier) and every stall "
+              "stage at every redirect hop is injected by the loopback TLS simulator, with random fault programs on top; verdicts are "
+              "'failure item, in time, process alive'. Exhaustive over the corpus in the thorough tier."),
+        design_ref="DESIGN.md §3 C05",
+        note=("Trusted: the simulator's fault injection; wall-clock bounds are >= 3x the configured timeout per hop and a breach is "
+              "re-run alone in a fresh process before it is reported."),
+        technique="fault enumeration + property-based fault programs (rapid) against a loopback TLS simulator",
+    ),
+)
